@@ -407,6 +407,24 @@ class _NPD:
         return getattr(np, n)
 
 
+def real_quant_methods(V, op, q_in, q_out, mkq=None):
+    """gives a stand-in operation the REAL Operation.get_input_quantization / get_output_quantization and the attributes they read: the effective
+    quantisation is either the IFM / OFM tensor's own, or - forked choice - a forced one (a fused lookup-table activation forces the output
+    quantisation of the producing operation) while the tensor carries a different scale that must NOT be used"""
+    import types
+    from ethosu.vela.operation import Operation
+
+    other = (lambda: type("Q", (), {"scale_f32": 0.8125, "zero_point": 0})()) if mkq is None else (lambda: mkq(0.8125))
+    fi = V.choice("input quantisation", ("the IFM tensor's", "forced"))
+    fo = V.choice("output quantisation", ("the OFM tensor's", "forced (fused activation)"))
+    op.ifm = type("T", (), {"quantization": other() if fi == "forced" else q_in})()
+    op.ofm = type("T", (), {"quantization": other() if fo != "the OFM tensor's" else q_out})()
+    op.forced_input_quantization = q_in if fi == "forced" else None
+    op.forced_output_quantization = q_out if fo != "the OFM tensor's" else None
+    op.get_input_quantization = types.MethodType(Operation.get_input_quantization, op)
+    op.get_output_quantization = types.MethodType(Operation.get_output_quantization, op)
+
+
 def prep_scales(V, ifm_dtype, op_type, orig_type, bias_dtype="int32"):
     """weight_compressor._prepare_scale_and_bias: the per-channel scale handed to quantise_scale is the TFLite derivation for the
     ORIGINAL operator: convolutions (also a 1x1 convolution that was re-typed to FullyConnected) multiply in double,
@@ -429,8 +447,7 @@ def prep_scales(V, ifm_dtype, op_type, orig_type, bias_dtype="int32"):
     op.type, op.original_type = Op[op_type], Op[orig_type]
     op.bias, op.outputs = tens, [object()]
     op.inputs = [type("I", (), {"dtype": dt})(), type("W", (), {"quantization": q(s_w)})()]
-    op.get_input_quantization = lambda: q(s_i)
-    op.get_output_quantization = lambda: q(s_o)
+    real_quant_methods(V, op, q(s_i), q(s_o), q)
     op.rounding_mode = RoundingMode.TFLite
     tens.purpose, tens.format, tens.consumer_list, tens.values, tens.dtype, tens.name = TensorPurpose.FeatureMap, TensorFormat.NHWC, [op], [7], {"int32": DataType.int32, "int64": DataType.int64}[bias_dtype], "bias"
     stub = _QSStub(wc.quantise_scale)
